@@ -2,6 +2,7 @@ package checks
 
 import (
 	"fmt"
+	"os"
 	"sort"
 	"strings"
 	"sync"
@@ -1084,11 +1085,98 @@ func c01Skeletons(r *findings.Run, deadline time.Time) {
 	}
 }
 
+// c01Conformance binds the reference interpreter to the Go toolchain (see goconf.go).
+func c01Conformance(r *findings.Run) bool {
+	var progs []*Prog
+	showAll := Print{Args: []Expr{StrLit{V: "vars"}, Var{"a"}, Var{"b"}, Var{"p"}, Var{"q"}, Var{"s"}, Var{"u"}}}
+	addCells := func(trees []Expr, vals []valuation) {
+		for _, v := range vals {
+			var batch []Expr
+			flush := func() {
+				if len(batch) > 0 {
+					p := cellProg(v, batch)
+					p.Stmts = append(p.Stmts, showAll)
+					progs = append(progs, p)
+					batch = nil
+				}
+			}
+			for _, e := range trees {
+				if definedUnder(v, e) {
+					batch = append(batch, e)
+					if len(batch) == 100 {
+						flush()
+					}
+				}
+			}
+			flush()
+		}
+	}
+	full := &exprGen{al: fullAlphabet(), memo: map[string][]Expr{}}
+	var k01, k2 []Expr
+	for _, t := range []string{"int", "bool", "string"} {
+		k01 = append(k01, full.gen(t, 0)...)
+		k01 = append(k01, full.gen(t, 1)...)
+		k2 = append(k2, full.gen(t, 2)...)
+	}
+	addCells(k01, allValuations())
+	if r.Thorough() {
+		addCells(k2, curatedValuations())
+	} else {
+		addCells(k2, curatedValuations()[1:2])
+	}
+	pa := &exprGen{al: precAlphabet(), memo: map[string][]Expr{}}
+	var k3 []Expr
+	for _, t := range []string{"int", "bool"} {
+		k3 = append(k3, pa.gen(t, 3)...)
+	}
+	addCells(k3, curatedValuations()[1:2])
+	nCells := len(progs)
+	hasFunc := func(p *Prog) bool {
+		return progHas(p, func(s Stmt) bool { _, ok := s.(FuncDef); return ok })
+	}
+	for _, p := range c01SimplePrograms() {
+		progs = append(progs, p)
+	}
+	addSk := func(kinds []skKind, n, d int) {
+		memo := map[[3]int][][]skNode{}
+		for _, s := range enumSeqs(kinds, n, d, 3, memo) {
+			if p := skProgram(s); !hasFunc(p) {
+				progs = append(progs, p)
+			}
+		}
+	}
+	addSk(fullKinds(), 1, 1)
+	addSk(fullKinds(), 2, 2)
+	if r.Thorough() {
+		addSk(controlKinds(), 3, 3)
+		addSk(mediumKinds(), 3, 3)
+	}
+	compared, problems := goConformance(progs, 700)
+	r.Set("model_conformance_programs_compiled_with_go", compared)
+	r.Set("model_conformance_expression_batches", nCells)
+	r.Set("traces_validated_against_go_toolchain", compared)
+	if len(problems) > 0 {
+		for _, p := range problems {
+			fmt.Fprintln(os.Stderr, "MODEL CONFORMANCE:", p)
+		}
+		fmt.Fprintln(os.Stderr, "HARNESS ERROR: the reference interpreter does not agree with the Go toolchain on generated programs; nothing is judged")
+		return false
+	}
+	return true
+}
+
 func C01() int {
 	r := findings.New("C01")
 	defer drive.Cleanup()
 	deadline := r.Deadline(8*time.Minute, 40*time.Minute)
 	r.Set("exhaustive", true)
+	if !c01Conformance(r) {
+		return 2
+	}
+	if os.Getenv("VERIF_C01_ONLY_CONFORMANCE") != "" {
+		fmt.Println("conformance:", r.Cov["model_conformance_programs_compiled_with_go"], "programs agree with the Go toolchain")
+		return 0
+	}
 	c01Expressions(r, deadline)
 	c01Skeletons(r, deadline)
 	ec, _ := r.Cov["expr_cells_distinct"].(int)
